@@ -83,6 +83,8 @@ pub enum Op {
     Kc { d: u8, dd: u8, lon: f64, lat: f64, r: f64 },
     /// `elliptical_cone_coverage` (C13 slice; both tables).
     E { d: u8, lon: f64, lat: f64, a: f64, b: f64, pa: f64 },
+    /// `elliptical_cone_coverage_custom` (first-touches depth d+dd).
+    Ec { d: u8, dd: u8, lon: f64, lat: f64, a: f64, b: f64, pa: f64 },
     /// `polygon_coverage` (C12 slice).
     P { d: u8, verts: Vec<(f64, f64)>, exact: bool },
     /// `external_edge_sorted` (C14 slice).
@@ -108,7 +110,7 @@ impl Op {
             Op::L { d } | Op::H { d, .. } | Op::G { d, .. } | Op::N { d, .. } | Op::K { d, .. }
             | Op::E { d, .. } | Op::P { d, .. } | Op::X { d, .. } | Op::B { d, .. } | Op::R { d, .. }
             | Op::V { d, .. } | Op::Zh { d, .. } | Op::Zc { d } => *d,
-            Op::Kc { d, dd, .. } => *d + *dd,
+            Op::Kc { d, dd, .. } | Op::Ec { d, dd, .. } => *d + *dd,
             // the invalid depth itself is 30; no valid slot is requested
             Op::Zd { .. } => 0,
         }
@@ -121,7 +123,7 @@ impl Op {
     pub fn tables(&self) -> u8 {
         match self {
             Op::V { .. } => 2,
-            Op::K { .. } | Op::Kc { .. } | Op::E { .. } => 3,
+            Op::K { .. } | Op::Kc { .. } | Op::E { .. } | Op::Ec { .. } => 3,
             _ => 1,
         }
     }
@@ -130,12 +132,14 @@ impl Op {
             Op::L { .. } => "L", Op::H { .. } => "H", Op::G { .. } => "G", Op::N { .. } => "N",
             Op::K { .. } => "K", Op::Kc { .. } => "Kc", Op::E { .. } => "E", Op::P { .. } => "P",
             Op::X { .. } => "X", Op::B { .. } => "B", Op::R { .. } => "R", Op::V { .. } => "V",
-            Op::Zh { .. } => "Zh", Op::Zc { .. } => "Zc", Op::Zd { .. } => "Zd",
+            Op::Zh { .. } => "Zh", Op::Zc { .. } => "Zc", Op::Zd { .. } => "Zd", Op::Ec { .. } => "Ec",
         }
     }
 }
 
-pub const OP_KINDS: [&str; 15] = ["L", "H", "G", "N", "K", "Kc", "E", "P", "X", "B", "R", "V", "Zh", "Zc", "Zd"];
+pub const OP_KINDS: [&str; 16] = ["L", "H", "G", "N", "K", "Kc", "E", "P", "X", "B", "R", "V", "Zh", "Zc", "Zd", "Ec"];
+/// Kinds the swarm generator draws ordinary (non-crashing) ops from.
+pub const ORDINARY_KINDS: [usize; 13] = [0, 1, 2, 3, 4, 5, 6, 7, 8, 9, 10, 11, 15];
 
 #[derive(Clone, Copy, Debug, PartialEq, Eq)]
 pub enum Start {
@@ -229,6 +233,7 @@ pub fn encode_op(op: &Op) -> String {
         Op::Zh { d, lon } => format!("Zh,{},{}", d, f(*lon)),
         Op::Zc { d } => format!("Zc,{}", d),
         Op::Zd { lon } => format!("Zd,{}", f(*lon)),
+        Op::Ec { d, dd, lon, lat, a, b, pa } => format!("Ec,{},{},{},{},{},{},{}", d, dd, f(*lon), f(*lat), f(*a), f(*b), f(*pa)),
     }
 }
 
@@ -260,6 +265,7 @@ pub fn decode_op(s: &str) -> Result<Op, String> {
         "Zh" => { need(3)?; Op::Zh { d: pu(p[1])?, lon: pf(p[2])? } }
         "Zc" => { need(2)?; Op::Zc { d: pu(p[1])? } }
         "Zd" => { need(2)?; Op::Zd { lon: pf(p[1])? } }
+        "Ec" => { need(8)?; Op::Ec { d: pu(p[1])?, dd: pu(p[2])?, lon: pf(p[3])?, lat: pf(p[4])?, a: pf(p[5])?, b: pf(p[6])?, pa: pf(p[7])? } }
         k => return Err(format!("unknown op kind '{}'", k)),
     };
     if op.depth() > 29 { return Err(format!("op '{}': depth > 29", s)); }
@@ -359,6 +365,7 @@ pub fn describe_op(op: &Op) -> String {
         Op::Zh { d, lon } => format!("CRASH hash({},{:.6},lat=2.0)", d, lon),
         Op::Zc { d } => format!("CRASH center({},n_hash)", d),
         Op::Zd { lon } => format!("CRASH hash(depth=30,{:.6},0.5)", lon),
+        Op::Ec { d, dd, lon, lat, a, b, pa } => format!("elliptical_cone_coverage_custom({},{},{:.6},{:.6},{:.3e},{:.3e},{:.4})", d, dd, lon, lat, a, b, pa),
     }
 }
 
@@ -427,8 +434,8 @@ fn gen_op(rng: &mut Rng, k: usize, d: u8, light: bool) -> Op {
             Op::K { d, lon, lat, r: (cs * f).min(3.0) }
         }
         "Kc" => {
-            let dd = if d >= 29 { 0 } else { rng.range(1, if light { 1 } else { 2 }).min((29 - d) as u64) as u8 };
-            let f = rng.uniform(0.3, if light { 1.5 } else { 3.0 });
+            let dd = if d >= 29 { 0 } else { rng.range(1, if light { 3 } else { 4 }).min((29 - d) as u64) as u8 };
+            let f = rng.uniform(0.3, if light { 1.5 } else { 3.0 }) / (1u64 << (dd.saturating_sub(2))) as f64;
             Op::Kc { d, dd, lon, lat, r: (cs * f).min(3.0) }
         }
         "E" => {
@@ -464,10 +471,17 @@ fn gen_op(rng: &mut Rng, k: usize, d: u8, light: bool) -> Op {
         }
         "B" => Op::B { d, lon, lat: lat.max(-1.57).min(1.57) },
         "R" => Op::R { d, h: rng.below(n_hash(d)) },
-        "V" => Op::V { d, lon, lat, r: if rng.chance(1, 2) { Some((cs * rng.uniform(0.2, 4.0)).min(1.0)) } else { None } },
+        "V" => Op::V { d, lon, lat, r: if rng.chance(1, 2) { Some(if rng.chance(1, 8) { rng.uniform(0.05, 1.6) } else { (cs * rng.uniform(0.2, 4.0)).min(1.0) }) } else { None } },
         "Zh" => Op::Zh { d, lon },
         "Zc" => Op::Zc { d },
         "Zd" => Op::Zd { lon },
+        "Ec" => {
+            let lat = lat.max(-1.5).min(1.5);
+            let dd = if d >= 29 { 0 } else { rng.range(1, if light { 2 } else { 3 }).min((29 - d) as u64) as u8 };
+            let a = (cs * rng.uniform(0.5, if light { 1.2 } else { 2.5 })).min(1.0);
+            let b = a * rng.uniform(0.3, 1.0);
+            Op::Ec { d, dd, lon, lat, a, b, pa: rng.uniform(0.0, std::f64::consts::PI) }
+        }
         _ => unreachable!(),
     }
 }
@@ -494,7 +508,18 @@ fn generate_cover(seed: u64) -> Scenario {
             let lo = lon + rng.uniform(-2.0, 2.0) * cs;
             let la = (lat + rng.uniform(-2.0, 2.0) * cs).max(-1.5).min(1.5);
             let f = rng.uniform(3.0, 12.0);
-            let op = match rng.below(8) {
+            let op = match rng.below(9) {
+                // a cone of unusual size at a shallow depth (up to more than the whole sky): its
+                // recursion starts at depth 0 and first-touches every depth down to the target
+                0 if d <= 5 || rng.chance(1, 4) => {
+                    let dbig = if d <= 5 { d } else { rng.range(0, 5) as u8 };
+                    Op::K { d: dbig, lon: lo, lat: la, r: rng.uniform(0.3, 3.3) }
+                }
+                8 => {
+                    let dd = if d >= 28 { 0 } else { rng.range(1, 2) as u8 };
+                    let a = (cs * f * 0.5).min(1.0);
+                    Op::Ec { d: d.min(29 - dd), dd, lon: lo, lat: la, a, b: a * rng.uniform(0.4, 1.0), pa: rng.uniform(0.0, std::f64::consts::PI) }
+                }
                 0..=3 => Op::K { d, lon: lo, lat: la, r: (cs * f).min(1.5) },
                 4 => {
                     let dd = if d >= 28 { 0 } else { rng.range(1, 2) as u8 };
@@ -568,8 +593,8 @@ pub fn generate(seed: u64, profile: Profile) -> Scenario {
     let mut rng = Rng::new(seed);
     let (max_threads, max_ops, light) = match profile {
         Profile::Full => (6u64, 4u64, false),
-        Profile::Light => (4, 2, true),
-        Profile::Tiny => (3, 1, true),
+        Profile::Light => (5, 2, true),
+        Profile::Tiny => (4, 1, true),
         Profile::Cover | Profile::Crash => unreachable!(),
     };
     // thread count: biased to small
@@ -580,7 +605,7 @@ pub fn generate(seed: u64, profile: Profile) -> Scenario {
         _ => rng.range(2, max_threads),
     } as usize;
     // depth pool: 1..=3 depths so that first uses collide
-    let pool_n = match rng.below(10) { 0..=4 => 1, 5..=7 => 2, _ => 3 };
+    let pool_n = match rng.below(20) { 0..=8 => 1, 9..=14 => 2, 15..=17 => 3, 18 => 4, _ => 5 };
     let mut pool: Vec<u8> = Vec::new();
     while pool.len() < pool_n {
         let d = rng.below(N_DEPTHS as u64) as u8;
@@ -592,9 +617,9 @@ pub fn generate(seed: u64, profile: Profile) -> Scenario {
         kinds.push(0); // L
         if rng.chance(1, 2) { kinds.push(11); } // V
     } else {
-        for k in 0..12 {
+        for &k in ORDINARY_KINDS.iter() {
             // heavy geometry less often in the light profile
-            let heavy = matches!(OP_KINDS[k], "K" | "Kc" | "E" | "P");
+            let heavy = matches!(OP_KINDS[k], "K" | "Kc" | "E" | "Ec" | "P");
             let p = if heavy { if light { 2 } else { 4 } } else { 4 };
             if rng.chance(p, 10) { kinds.push(k); }
         }
